@@ -595,6 +595,14 @@ def _finish_expanded(fi: FuncInfo, tree: ast.AST, placeholders: Dict[str, str]) 
     for n in ast.walk(tree):
         if isinstance(n, ast.Name) and n.id in order:
             n.id = order[n.id]
+    # x[len(x) - k] and x[-k] are the same item: one spelling
+    for n in ast.walk(tree):
+        if isinstance(n, ast.Subscript):
+            sl = n.slice
+            if isinstance(sl, ast.BinOp) and isinstance(sl.op, ast.Sub) and isinstance(sl.right, ast.Constant) and isinstance(sl.right.value, int) and isinstance(sl.left, ast.Call) and isinstance(sl.left.func, ast.Name) and sl.left.func.id == "len" and len(sl.left.args) == 1 and norm(sl.left.args[0]) == norm(n.value) and sl.right.value > 0:
+                n.slice = ast.Constant(value=-sl.right.value)
+            elif isinstance(sl, ast.UnaryOp) and isinstance(sl.op, ast.USub) and isinstance(sl.operand, ast.Constant) and isinstance(sl.operand.value, int):
+                n.slice = ast.Constant(value=-sl.operand.value)
     # `a == b` and `b == a` (and the operands of `and` / `or`) are the same condition: one spelling
     for n in ast.walk(tree):
         if isinstance(n, ast.Compare) and len(n.ops) == 1 and isinstance(n.ops[0], (ast.Eq, ast.NotEq)):
@@ -2392,6 +2400,10 @@ def rule_definite_assignment(ctx: Ctx, rule: str = "definite-assignment") -> Non
             for x in ast.walk(st) if not isinstance(st, (ast.FunctionDef, ast.ClassDef)) else []:
                 if isinstance(x, ast.Name) and isinstance(x.ctx, ast.Store):
                     mod_names.add(x.id)
+                if isinstance(x, (ast.Import, ast.ImportFrom)):
+                    # imports nested in a module-level `if TYPE_CHECKING:` / `try:` bind module names as well
+                    for al in x.names:
+                        mod_names.add((al.asname or al.name).split(".")[0])
         # names of enclosing functions (closures) and of the class body are visible too
         outer = enclosing.get(id(fi.node), set())
         missing = undefined_globals(fi.node, mod_names | outer | {"__class__", "__name__", "__file__"})
